@@ -22,6 +22,18 @@ def run(ctx):
         c = programs.gen_program(rnd, f"N-{i}", symbolic=False)
         c["lazy_subsets"] = c["lazy_subsets"][:3] + [{"names": []}]
         cases.append(c)
+    # user functions wrapped by eager_propagate (the documented extension point) that update an argument in place:
+    # with onnxruntime they are evaluated at trace time, without it they are only traced
+    for i in range(30 if ctx.tier == "quick" else 300):
+        d = rnd.choice(["int64", "float64", "int32"])
+        sh = ops.rand_shape(rnd, 2, 0.05, (1, 2, 3), min_rank=1)
+        a, b = ops.tensor(rnd, d, sh, "small"), ops.tensor(rnd, d, sh, "small")
+        body = rnd.choice(["acc += step", "acc *= step", "acc[0] = acc[0] * 3 + step[0]", "acc -= step; acc += 1"])
+        impl = ("from ndonnx._propagation import eager_propagate\n@eager_propagate\ndef f_(acc, step):\n    " + body +
+                "\n    return acc * 2\nt = a.copy(); out = f_(t, b) + t")
+        cases.append({"id": f"NU-{i}", "inputs": {"a": a, "b": b}, "impl": impl, "oracle": None, "tol": [0, 0],
+                      "meta": {"func": "user-function", "dtype": d, "dclass": family.dclass(d)},
+                      "lazy_subsets": [{"names": ["a"]}, {"names": ["b"]}, {"names": ["a", "b"]}, {"names": []}]})
     with_ort = core.run_cases("harness.h_ops", cases, workers=14, per_case_timeout=180)
     no_ort = core.run_cases("harness.h_noort", cases, workers=14, per_case_timeout=180)
     # evaluate the models built without onnxruntime
